@@ -260,6 +260,17 @@ def step (d : DSt) (j : Json) : DSt × List String :=
     | some n, some none => (d, [s!"ret=err:parse sent=[] {stLine n}"])
     | _, _ => (d, ["bad-create"])
   | "observe" => (d, [observe st])
+  | "configure" =>
+    match Nuts.C15.configureAuthenticator (jBool j "tls") (jBool j "strict") with
+    | .err _ => (d, ["configure err:tls-disabled-strict"])
+    | .panic s => (d, ["configure panic:" ++ s])
+    | .ok k =>
+      -- a peer whose certificate covers attacker.example claims a DID whose NutsComm host is victim.example.org
+      let e : Nuts.C15.AuthEnv := { parseHost := fun _ => some "victim.example.org", verifyHostname := fun dns h => dns.contains h }
+      let (p, r) := Nuts.C15.authenticateWith k e "did:nuts:victim" { key := 0 }
+        { cert := some ["attacker.example"], endpoint := some "grpc://victim.example.org:5555" }
+      let kind := match k with | .tls => "tls" | .dummy => "dummy"
+      (d, [s!"configure auth={kind} liar-refused={r != "ok"} liar-auth={p.authenticated}"])
   | "authn" =>
     let host := jStr j "host"
     let e : Nuts.C15.AuthEnv := { parseHost := fun _ => if jBool j "parsed" then some host else none,
